@@ -10,8 +10,8 @@ import CpModel.Validators
 
     E <hdr>                             elementsSimple(hdr)  -> texts joined by '/'   ([] when empty)
 
-    Q kind method proto base callSince etagsOn autotags hEtag autoTag lastmod im inm ims ius range content
-        kind = file|gen   method = GET|HEAD|…   proto = 10|11   base = status   flags = 0|1
+    Q kind method proto known base callSince etagsOn autotags hEtag autoTag lastmod im inm ims ius range content
+        kind = file|gen   method = GET|HEAD|…   proto = 10|11   known = 0|1 (entity length known)   base = status   flags = 0|1
         hEtag, lastmod, ims, ius, range = N | text;  autoTag = text
         im, inm = [] | text/text/…
         content = x<hex> | f<len>.<a>.<b>   (byte i = (a*i+b) % 251)
@@ -72,7 +72,7 @@ def showResp (x : Resp) : String :=
   s!"s={x.status} cr={showCR x.contentRange} cl={Proto.showOptNat x.contentLength} etag={showOptText x.etag} body={showBody x.body}"
 
 def parseQ : List String → Option Req
-  | [kind, method, proto, base, callSince, etagsOn, autotags, hEtag, autoTag, lastmod, im, inm,
+  | [kind, method, proto, known, base, callSince, etagsOn, autotags, hEtag, autoTag, lastmod, im, inm,
      ims, ius, range, content] => do
     let kind ← if kind == "file" then some Kind.file else if kind == "gen" then some Kind.gen else none
     let proto11 ← if proto == "11" then some true else if proto == "10" then some false else none
@@ -82,6 +82,7 @@ def parseQ : List String → Option Req
       getHead := method == "GET" || method == "HEAD"
       isHead := method == "HEAD"
       proto11 := proto11
+      lenKnown := ← flag? known
       baseStatus := base
       callSince := ← flag? callSince
       etagsOn := ← flag? etagsOn
